@@ -2,9 +2,10 @@
   WS.Props.C08 — closing handshake and connection state follow one consistent state machine.
 -/
 import WS.Lemmas.Released
+import WS.Lemmas.OwnClose
 import WS.Props.C01
 namespace WS.Props.C08
-open WS WS.Model WS.Lemmas.Released
+open WS WS.Model WS.Lemmas.Released WS.Lemmas.OwnClose
 
 /-- **C08_status_range (send_close)** — a status outside 0..65535 is refused with ValueError and the
     state (wire included) is untouched, whatever the state. -/
@@ -99,5 +100,20 @@ theorem C08_close_released (c : Conn) (s : Int) (r : Bytes) (t : Option Nat)
   obtain ⟨c', h⟩ := C08_close_releases c s r t hs hc
   rw [h]
   exact ⟨rfl, (shutdown_released c').1⟩
+
+/-- **C08_own_close_once** — over EVERY sequence of client calls (send, ping, pong, recv, recv_data,
+    recv_data_frame, recv_frame, send_close, close, shutdown, abort — any arguments) interleaved with EVERY server
+    script (the transport inside the state: data, pings, close frames, end of stream, silence, resets, in any
+    chunking and timing), starting from a connection that has written no close frame: the number of close frames
+    the client writes on its own initiative — by `close()` or as the automatic reply to the server's close
+    (`ownCloses` is a ghost counter incremented exactly at those two writes) — never exceeds ONE, and is zero as
+    long as the object is connected. -/
+theorem C08_own_close_once (c : Conn) (h0 : c.ownCloses = 0) (ops : List Op) :
+    (runOps c ops).ownCloses ≤ 1 ∧ ((runOps c ops).connected = true → (runOps c ops).ownCloses = 0) :=
+  runOps_own ops c ⟨by omega, fun _ => h0⟩
+
+/-- the two writers really are counted: a connected `close()` and the reply to a server close frame. -/
+example : ((({ sock := { inp := [.chunk [0x88, 0x00]] } } : Conn).recvDataFrame true).2.ownCloses = 1) ∧
+    ((({ } : Conn).close 1000 [] (some 10)).2.ownCloses = 1) := by decide
 
 end WS.Props.C08
